@@ -79,7 +79,45 @@ func randVal(r *core.Rand) []byte {
 }
 
 // Mapping generates a well-formed mapping with unique keys. maxPairs bounds the count.
+// mappingOfSize builds a sorted mapping whose body is exactly target bytes long (target >= 4).
+func mappingOfSize(r *core.Rand, target int) rm.Mapping {
+	var m rm.Mapping
+	left := target
+	for j := 0; left > 0; j++ {
+		k := []byte(fmt.Sprintf("k%03d", j))
+		// a pair costs len(k)+len(v)+4 bytes; the last pair takes what is left
+		vl := r.Pick(200)
+		cost := len(k) + vl + 4
+		if left-cost < 8 { // finish exactly
+			vl = left - len(k) - 4
+			for vl > 255 { // too much for one value: pad the key instead
+				k = append(k, 'x')
+				vl--
+			}
+			if vl < 0 { // fewer than 8 bytes left: a shorter key
+				k = k[:len(k)+vl]
+				vl = 0
+			}
+			cost = len(k) + vl + 4
+		}
+		v := make([]byte, vl)
+		for i := range v {
+			v[i] = 'a' + byte(r.Pick(26))
+		}
+		m.Pairs = append(m.Pairs, rm.Pair{K: k, V: v})
+		left -= cost
+	}
+	return m
+}
+
+// sizes of a mapping body whose two size-field bytes are "interesting" together: equal, summing to
+// 256, one of them zero or 0xFF
+var mappingBodySizes = []int{255, 256, 257, 511, 512, 513, 514, 766, 767, 768, 1021, 1024, 1276, 2041, 4080, 4081, 0x0FF0, 0x1001}
+
 func Mapping(r *core.Rand, maxPairs int) rm.Mapping {
+	if maxPairs >= 6 && r.Chance(1, 24) {
+		return mappingOfSize(r, mappingBodySizes[r.Pick(len(mappingBodySizes))])
+	}
 	n := 0
 	switch r.Pick(10) {
 	case 0, 1, 2:
